@@ -281,6 +281,31 @@ def d5(cx: Cx, ob: Ob) -> None:
                         detail="early-exit-canonical-only",
                     )
 
+    # a pair that cannot be applied is SKIPPED: the application loop raises nothing of its own (the remapping is
+    # accepted or rejected as a whole by _order_curie_remapping, before a record is touched)
+    def _raises(paths):
+        for p_ in paths:
+            if p_.out is not None and p_.out[0] == "raise" and not (len(p_.out) > 3 and p_.out[3]):
+                yield p_
+            for ev in p_.events:
+                if ev.body:
+                    yield from _raises(ev.body)
+
+    for p_ in _raises(lp.body):
+        cls_ = p_.out[1][1][1].rsplit(".", 1)[-1] if op(p_.out[1]) == "call" and op(p_.out[1][1]) == "cls" else show(p_.out[1])[:30]
+        if cls_ in ("DuplicateKeys", "DuplicateValues", "InconsistentMapping", "CycleDetected"):
+            # a documented rejection, late: right if the remapping really has that defect (one the ordering step
+            # cannot see), wrong if it turns a pair that is to be skipped into an error - a question about values
+            ob.undecide(f"the application loop rejects the remapping with {cls_} (line {p_.out[2]}): whether every remapping that gets there has that defect is not decided")
+            continue
+        ob.violate(
+            fn.qualname,
+            where(fn, p_.out[2]),
+            f"the loop that applies the ordered pairs raises {cls_}: a pair that cannot be applied (unknown old prefix, new prefix owned by another record) is to be skipped, and a remapping that passed _order_curie_remapping is not rejected half-way",
+            witness="a chain whose earlier link is blocked by a third record: the later link finds the blocker among the records already visited",
+            detail=f"raise-in-apply-loop:{cls_}",
+        )
+
     def _record_stores(paths):
         for p_ in paths:
             for ev in p_.events:
@@ -469,6 +494,66 @@ def d6(cx: Cx, ob: Ob) -> None:
         else:
             ob.violate(fn.qualname, fn.where, f"_order_curie_remapping never raises {cls}", detail=f"no-raise:{cls}")
 
+    # every way out with an order has passed the three validations: a shortcut in front of them accepts a remapping
+    # the documented errors are there to reject
+    DOCUMENTED = ("DuplicateKeys", "DuplicateValues", "InconsistentMapping")
+    tests = {}
+    for o, ctx in s.outcomes():
+        if o is not None and o[0] == "raise" and op(o[1]) == "call" and op(o[1][1]) == "cls":
+            c_ = o[1][1][1].rsplit(".", 1)[-1]
+            gl = [g for g in ctx.guards if g.kind == "guard"]
+            if c_ in DOCUMENTED and gl and not ctx.loops:
+                tests.setdefault(c_, set()).add((gl[-1].a, gl[-1].b))
+    for t, ctx in s.returns():
+        if ctx.loops:
+            continue
+        have = {(g.a, g.b) for g in ctx.guards if g.kind == "guard"}
+        empty = any((a_ == rm and b_ is False) or (op(a_) == "call" and a_[1] == ("builtin", "len") and a_[2] == (rm,)) or any(op(x) == "call" and x[1] == ("builtin", "len") and x[2] == (rm,) for x in subterms(a_)) for a_, b_ in have)
+        validation_atoms = {a_ for ts in tests.values() for a_, _ in ts}
+        extra = [a_ for a_, _ in have if a_ not in validation_atoms]
+        vals_t = ("call", ("attr", rm, "values"), (), ())
+        items_t = ("call", ("attr", rm, "items"), (), ())
+        keys_t = ("call", ("attr", rm, "keys"), (), ())
+
+        def _reads(a_, what):
+            for x in subterms(a_):
+                if x in what and x != rm:
+                    return True
+                if op(x) == "cmp" and x[1] in ("in", "not in") and x[3] == rm and rm in what:
+                    return True
+                if op(x) == "comp" and any(src == rm for _, src, _ in x[3]) and rm in what:
+                    return True
+                if op(x) == "call" and x[1] in (("builtin", "set"), ("builtin", "list"), ("builtin", "sorted"), ("builtin", "any"), ("builtin", "all")) and x[2][:1] == (rm,) and rm in what:
+                    return True
+            return False
+
+        on_keys = any(_reads(a_, (keys_t, items_t, rm)) for a_ in extra)
+        on_values = any(_reads(a_, (vals_t, items_t)) for a_ in extra)
+        for c_, ts in sorted(tests.items()):
+            if any((a_, not b_) in have for a_, b_ in ts):
+                continue
+            if empty:
+                ob.site(f"{where(fn, ctx.path.out[2])} {fn.qualname}", f"shortcut on the size of the remapping in front of the {c_} test")
+                continue
+            # a shortcut is right when its condition makes the validation vacuous - a statement about values; what IS
+            # visible: a condition that does not even look at what the validation examines cannot do that
+            looks = {"DuplicateKeys": on_keys, "DuplicateValues": on_values, "InconsistentMapping": on_keys or on_values}[c_]
+            if looks:
+                ob.undecide(f"_order_curie_remapping returns at line {ctx.path.out[2]} in front of the {c_} validation, on a condition over what that validation examines: whether it makes the validation vacuous is not decided")
+                continue
+            ob.violate(
+                fn.qualname,
+                where(fn, ctx.path.out[2]),
+                f"_order_curie_remapping returns an order (line {ctx.path.out[2]}) on a path that has not been through the {c_} validation: a remapping that is to be rejected with {c_} is applied instead",
+                witness="record a[a1] and {'a': 'c', 'a1': 'b'} with b, c unused: two pairs rename one record, the later one wins, no DuplicateKeys",
+                detail=f"unvalidated-return:{c_}",
+            )
+    # ... a filtered copy of the remapping under its own name: the left-out pairs are neither validated nor ordered;
+    # whether they needed to be is a question about values (pairs already satisfied, identity pairs, unknown names)
+    for ev0, ctx0 in s.walk():
+        if ev0.kind == "bind" and ev0.a == fn.params[1].name and not ctx0.loops and op(ev0.b) == "comp" and ev0.b[1] == "dict" and len(ev0.b[3]) == 1 and ev0.b[3][0][2]:
+            ob.undecide(f"the remapping is replaced by a filtered copy of itself at line {ev0.line} (pairs failing `{show(ev0.b[3][0][2][0])[:60]}` are dropped before the validations)")
+
     def strip_order(t):
         while op(t) == "call" and t[1] in (("builtin", "sorted"), ("builtin", "list"), ("builtin", "tuple")) and t[2]:
             t = t[2][0]
@@ -552,6 +637,28 @@ def d6(cx: Cx, ob: Ob) -> None:
             d = it[1][1]
             test = ifs[0]
             ob.site(f"{where(fn, ev.line)} {fn.qualname}", f"layer: pairs with {show(test)[:60]}")
+            if op(d) == "phi":
+                # the working copy the layers are peeled from starts as the WHOLE remapping: a pair filtered out of
+                # it is in no layer, so it is never applied (and, in a chain, the pair that waits for it runs early)
+                for ev0, ctx0 in s.walk():
+                    if ev0.kind != "bind" or ev0.a != d[1] or ctx0.loops or op(ev0.b) != "comp" or ev0.b[1] != "dict" or len(ev0.b[3]) != 1:
+                        continue
+                    tg0, src0, ifs0 = ev0.b[3][0]
+                    if len(ifs0) == 1 and op(tg0) == "tuple" and len(tg0[1]) == 2 and ifs0[0] in (("cmp", "!=", tg0[1][0], tg0[1][1]), ("cmp", "!=", tg0[1][1], tg0[1][0])):
+                        ob.site(f"{where(fn, ev0.line)} {fn.qualname}", "identity pairs (old == new, literally) are left out of the layers: applying one changes nothing")
+                        continue
+                    if ifs0 and op(src0) == "call" and callee_name(src0) == "items" and src0[1][1] == rm:
+                        others = [m for m, _ in s.mutations_of(bt) if m.line < ev0.line]
+                        if others:
+                            ob.undecide(f"pairs are filtered out of the working copy (line {ev0.line}) and the ordering list is also filled at line {others[0].line}")
+                            continue
+                        ob.violate(
+                            fn.qualname,
+                            where(fn, ev0.line),
+                            f"the working copy of the remapping leaves out the pairs failing `{show(ifs0[0])[:70]}`: they are in no layer of the returned order, so remap_curie_prefixes never applies them although they passed every validation",
+                            witness="records a[x], b, c with {'a': 'x', 'b': 'b2', 'c': 'b'}: the chain sends the remapping down the slow path and a->x (promote the synonym) is dropped",
+                            detail="pairs-left-out",
+                        )
             no_out = [
                 ("call", ("attr", ("call", ("builtin", "set"), (("call", ("attr", d, "values"), (), ()),), ()), "difference"), (d,), ()),
                 ("bin", "-", ("call", ("builtin", "set"), (("call", ("attr", d, "values"), (), ()),), ()), ("call", ("builtin", "set"), (d,), ())),
